@@ -354,8 +354,12 @@ def compare_with_model(ctx, cases, obs):
             todo.append((c, o, 'pre'))
         elif o['result'] == 'ok' or (o['result'] == 'exception' and o.get('stage') not in ('parse', 'parser-fold', 'api')):
             # the tree translator (dump_tree.py) is recursive: trees too deep for it are only compared through `pre`
-            deep = c['cls'] == 'recursion' or o.get('cause') == 'RecursionError' or max(map(len, c['text'].split('\n'))) > 1500
-            if len(c['text']) < 6000 and not deep and o.get('secs', 0) <= 0.3:
+            deep = (c['cls'] == 'recursion' and 'expression depth' in c['hint']) or o.get('cause') == 'RecursionError' or max(map(len, c['text'].split('\n'))) > 1500
+            # 900 nested expansions of a macro that declares labels: the assembler needs 0.1 s, the model (association
+            # lists keyed by strings that share a 10 KB prefix) minutes; the depth limit itself is compared on the
+            # label-free and small-limit programs of gen_recursion
+            runaway = o['result'] == 'exception' and 'maximal macro-expansion' in o.get('msg', '') and c['cls'] != 'recursion'
+            if len(c['text']) < 6000 and not deep and not runaway and o.get('secs', 0) <= 0.3:
                 todo.append((c, o, 'dump'))
     limit = ctx.n(700, 8000)
     pre = [t for t in todo if t[2] == 'pre']
@@ -413,7 +417,7 @@ def compare_with_model(ctx, cases, obs):
 
     def one(idx_ts):
         idx, ts = idx_ts
-        r, err, secs = evaluate(f'c14model_{idx}', ts, 120)
+        r, err, secs = evaluate(f'c14model_{idx}', ts, 90)
         shard_secs.append(secs)
         if r is not None or err != 'TIMEOUT':
             return r, err
